@@ -150,9 +150,12 @@ where {
 
 impl<D: DataMut> ReaderFrom for GLWESwitchingKeyCompressed<D> {
     fn read_from<R: std::io::Read>(&mut self, reader: &mut R) -> std::io::Result<()> {
-        self.input_degree = Degree(reader.read_u32::<LittleEndian>()?);
-        self.output_degree = Degree(reader.read_u32::<LittleEndian>()?);
-        self.key.read_from(reader)
+        let input_degree = Degree(reader.read_u32::<LittleEndian>()?);
+        let output_degree = Degree(reader.read_u32::<LittleEndian>()?);
+        self.key.read_from(reader)?;
+        self.input_degree = input_degree;
+        self.output_degree = output_degree;
+        Ok(())
     }
 }
 
